@@ -186,6 +186,304 @@ class CFStep(SubCheck):
 
 SUBCHECKS = {c.name: c for c in [CFHist(), CFStep()]}
 
+
+
+# ---------------------------------------------------------------------------
+# PriorityQueue (Cython) through DeCy
+# ---------------------------------------------------------------------------
+def _lex_ge(a, b):
+    """a >= b for scalar or equal-length tuple scores (symbolic-friendly, non-forking)."""
+    import z3
+    from vf.pysym.engine import SymBool, to_int_expr
+
+    if not isinstance(a, tuple):
+        a, b = (a,), (b,)
+    # lexicographic: a > b or a == b
+    n = min(len(a), len(b))
+    res = z3.BoolVal(len(a) >= len(b))
+    for i in reversed(range(n)):
+        ai, bi = to_int_expr(a[i]), to_int_expr(b[i])
+        res = z3.Or(ai > bi, z3.And(ai == bi, res))
+    res = z3.simplify(res)
+    if z3.is_true(res):
+        return True
+    if z3.is_false(res):
+        return False
+    return SymBool(res)
+
+
+def _eq(a, b):
+    if isinstance(a, tuple) != isinstance(b, tuple):
+        return False
+    if isinstance(a, tuple):
+        if len(a) != len(b):
+            return False
+        r = True
+        for x, y in zip(a, b):
+            r = r & (x == y) if r is not True else (x == y)
+        return r
+    return a == b
+
+
+class _PQBase(SubCheck):
+    sources = ["whatshap/priorityqueue.pyx", "whatshap/priorityqueue.pxd"]
+    encoded = ["priorityqueue.PriorityQueue.{push,c_push,pop,c_pop,change_score,c_change_score,get_score_by_item,c_get_score_by_item,__len__,is_empty,_swap,_score_lower,_sift_up,_sift_down}", "_vector_score_lower", "_pyscore_to_vector", "_parent/_left_child/_right_child"]
+    stubs = ["DeCy shims: vector/unordered_map/pair/pointer (vf/decy/shims.py), validated by the repo's tests/test_priorityqueue.py on the translation and by per-path replay on the compiled extension rebuilt from the working tree"]
+
+    def setup(self):
+        self.world = SymWorld(decy=["whatshap.priorityqueue"])
+        self.sym = self.world.load("whatshap.priorityqueue")
+        self._selftest()
+        from vf import build
+
+        self.real = build.load_real(["priorityqueue"])["priorityqueue"]
+
+    def _selftest(self):
+        # the repo's own unit tests, run against the translation (concrete)
+        import importlib.util, sys, inspect, os
+        from vf.runner import REPO
+
+        w = SymWorld(decy=["whatshap.priorityqueue"], shadows={"int": int, "float": float, "bool": bool})
+        mod = w.load("whatshap.priorityqueue")
+        src = open(os.path.join(REPO, "tests", "test_priorityqueue.py")).read()
+        ns = {"__name__": "decy_selftest"}
+        src = src.replace("from whatshap.priorityqueue import PriorityQueue", "")
+        ns["PriorityQueue"] = mod.PriorityQueue
+        exec(compile(src, "test_priorityqueue.py", "exec"), ns)
+        n = 0
+        for k, f in list(ns.items()):
+            if k.startswith("test_") and callable(f):
+                f()
+                n += 1
+        if n < 5:
+            raise RuntimeError("DeCy self-test: repo tests for priorityqueue not found")
+
+    def sym_impl(self):
+        return self.sym
+
+    def real_impl(self):
+        return self.real
+
+    def _score(self, e, name, arity):
+        if arity == 1:
+            return e.int(name, -4, 4)
+        return tuple(e.int("%s.%d" % (name, i), -3, 3) for i in range(arity))
+
+    def _drain(self, e, pq, model, ctx):
+        """Pop everything: items come out in non-increasing score order with the
+        scores last assigned; exactly the queued items come out."""
+        e.check(len(pq) == len(model), "len() disagrees with the number of queued items", ctx)
+        e.check(pq.is_empty() == (len(model) == 0), "is_empty() disagrees", ctx)
+        for it, sc in list(model.items()):
+            got = pq.get_score_by_item(it)
+            e.check(got is not None, "get_score_by_item() reports a queued item as absent", ctx)
+            e.check(_eq(got, sc), "get_score_by_item() returns a stale score", ctx)
+        prev = None
+        left = dict(model)
+        while left:
+            score, item = pq.pop()
+            e.out("pop_item", item)
+            e.out("pop_score", score)
+            e.check(item in left, "pop() returned an item that is not queued (or twice)", ctx)
+            e.check(_eq(score, left[item]), "pop() returned an item with a score other than the last assigned", ctx)
+            for it2, sc2 in left.items():
+                e.check(_lex_ge(score, sc2), "pop() did not return a maximum-score item", ctx)
+            del left[item]
+        e.check(len(pq) == 0 and pq.is_empty(), "queue not empty after popping all queued items", ctx)
+        try:
+            pq.pop()
+            e.check(False, "pop() on an empty queue did not raise IndexError", ctx)
+        except IndexError:
+            pass
+
+
+class PQHist(_PQBase):
+    name = "pq_hist"
+    assumptions = ["an item id is pushed at most once while queued (ids are read indices)", "change_score only on queued items"]
+    required_cover = ["pop after change_score", "change_score raises score of non-root", "change_score lowers score of root", "equal scores"]
+
+    def shapes(self, tier):
+        m = 4 if tier == "quick" else 5
+        out = []
+        for arity in (1, 2):
+            mm = m if arity == 1 else m - 1
+            for seq in itertools.product("PpCg", repeat=mm):
+                # P push, p pop, C change_score, g get_score of an arbitrary item
+                size, ok = 0, True
+                for o in seq:
+                    if o == "P":
+                        size += 1
+                    elif o == "p":
+                        if size == 0:
+                            ok = False
+                        size -= 1
+                    elif o == "C":
+                        if size == 0:
+                            ok = False
+                if ok and seq[0] == "P" and seq.count("g") <= 1:
+                    out.append(dict(ops="".join(seq), arity=arity))
+        return out
+
+    def bounds(self, tier):
+        sh = self.shapes(tier)
+        return "%d operation sequences of length <= %d over {push,pop,change_score,get_score}, items solver-chosen among the queued/unqueued ids, scalar scores in [-4,4] and 2-tuples in [-3,3]^2 symbolic; every sequence is followed by draining the queue" % (len(sh), max(len(s["ops"]) for s in sh))
+
+    def harness(self, e, shape, impl):
+        arity = shape["arity"]
+        pq = impl.PriorityQueue()
+        model = {}
+        nxt = 0
+        changed = False
+        hist = []
+        ctx = lambda: dict(ops=shape["ops"], history=[str(h) for h in hist])
+        for k, o in enumerate(shape["ops"]):
+            if o == "P":
+                sc = self._score(e, "s%d" % k, arity)
+                pq.push(sc, nxt)
+                model[nxt] = sc
+                hist.append(("push", nxt))
+                nxt += 1
+            elif o == "p":
+                items = sorted(model)
+                score, item = pq.pop()
+                e.out("pop_item", item)
+                e.out("pop_score", score)
+                hist.append(("pop", item))
+                e.check(item in model, "pop() returned an item that is not queued", ctx)
+                e.check(_eq(score, model[item]), "pop() returned an item with a score other than the last assigned", ctx)
+                for it2, sc2 in model.items():
+                    e.check(_lex_ge(score, sc2), "pop() did not return a maximum-score item", ctx)
+                    if it2 != item and _eq(score, sc2):
+                        e.cover("equal scores")
+                del model[item]
+                if changed:
+                    e.cover("pop after change_score")
+            elif o == "C":
+                items = sorted(model)
+                it = e.choice("c%d" % k, items)
+                sc = self._score(e, "s%d" % k, arity)
+                old = model[it]
+                is_root = all(bool(_lex_ge(old, s2)) for s2 in model.values())
+                if _lex_ge(sc, old) and not _eq(sc, old) and not is_root:
+                    e.cover("change_score raises score of non-root")
+                if is_root and not _lex_ge(sc, old):
+                    e.cover("change_score lowers score of root")
+                pq.change_score(it, sc)
+                model[it] = sc
+                changed = True
+                hist.append(("change", it))
+            elif o == "g":
+                it = e.choice("g%d" % k, range(max(nxt, 1) + 1))
+                got = pq.get_score_by_item(it)
+                hist.append(("get", it))
+                if it in model:
+                    e.check(got is not None and _eq(got, model[it]), "get_score_by_item() wrong for a queued item", ctx)
+                else:
+                    e.check(got is None, "get_score_by_item() reports an absent item as queued", ctx)
+        self._drain(e, pq, model, ctx)
+
+
+class PQStep(_PQBase):
+    """Inductive step: an arbitrary valid heap of n entries (scores symbolic,
+    constrained only by heap order - exactly the states any history of pushes
+    reaches, array order included), then ONE arbitrary operation, then the
+    observable contract on draining.  On the translation the representation
+    invariant (heap order, positions = inverse of heap) is also asserted on the
+    internal arrays."""
+
+    name = "pq_step"
+    assumptions = ["pre-state satisfies the representation invariant: heap[parent(i)] is not lower than heap[i]; positions maps every item to its index"]
+    required_cover = ["sift_down takes right child", "sift_down takes left child", "sift_up at least two levels"]
+
+    def shapes(self, tier):
+        ns = [1, 2, 3, 4, 5] if tier == "quick" else [1, 2, 3, 4, 5, 6, 7]
+        out = []
+        for n in ns:
+            for op in ["push", "pop"] + ["change%d" % i for i in range(n)]:
+                out.append(dict(n=n, op=op, arity=1))
+        for n in ([2, 3] if tier == "quick" else [2, 3, 4]):
+            for op in ["push", "pop"] + ["change%d" % i for i in range(n)]:
+                out.append(dict(n=n, op=op, arity=2))
+        return out
+
+    def bounds(self, tier):
+        sh = self.shapes(tier)
+        return "arbitrary valid heap with n <= %d entries (scalar scores) / n <= %d (2-tuple scores), one operation out of push / pop / change_score(item at each heap index), then drain" % (max(s["n"] for s in sh if s["arity"] == 1), max(s["n"] for s in sh if s["arity"] == 2))
+
+    def harness(self, e, shape, impl):
+        n, op, arity = shape["n"], shape["op"], shape["arity"]
+        pq = impl.PriorityQueue()
+        scores = [self._score(e, "h%d" % i, arity) for i in range(n)]
+        for i in range(1, n):
+            e.assume(_lex_ge(scores[(i - 1) // 2], scores[i]))
+        model = {}
+        for i in range(n):
+            pq.push(scores[i], i)  # array order of a valid heap: no sift-up moves anything
+            model[i] = scores[i]
+        if hasattr(pq, "heap"):
+            for i in range(n):
+                if pq.heap[i].second != i:
+                    raise RuntimeError("harness: pushes in heap-array order did not reproduce the array")
+        ctx = lambda: dict(n=n, op=op)
+        if op == "push":
+            sc = self._score(e, "new", arity)
+            pq.push(sc, n)
+            model[n] = sc
+            lvl, i = 0, n
+            while i > 0 and not bool(_lex_ge(scores[(i - 1) // 2], sc)):
+                i = (i - 1) // 2
+                lvl += 1
+            if lvl >= 2:
+                e.cover("sift_up at least two levels")
+        elif op == "pop":
+            score, item = pq.pop()
+            e.out("pop_item", item)
+            e.out("pop_score", score)
+            e.check(item in model, "pop() returned an item that is not queued", ctx)
+            e.check(_eq(score, model[item]), "pop() returned a wrong score", ctx)
+            for it2, sc2 in model.items():
+                e.check(_lex_ge(score, sc2), "pop() did not return a maximum-score item", ctx)
+            del model[item]
+            if n >= 4:
+                # last entry moved to the root and sifts down: which child?
+                last = scores[n - 1]
+                l, r = scores[1], scores[2]
+                if n - 1 > 2:
+                    if not bool(_lex_ge(l, r)) and not bool(_lex_ge(last, r)):
+                        e.cover("sift_down takes right child")
+                    if bool(_lex_ge(l, r)) and not bool(_lex_ge(last, l)):
+                        e.cover("sift_down takes left child")
+        else:
+            k = int(op[6:])
+            sc = self._score(e, "new", arity)
+            pq.change_score(k, sc)
+            model[k] = sc
+            if k > 0:
+                lvl, i = 0, k
+                while i > 0 and not bool(_lex_ge(scores[(i - 1) // 2], sc)):
+                    i = (i - 1) // 2
+                    lvl += 1
+                if lvl >= 2:
+                    e.cover("sift_up at least two levels")
+        if hasattr(pq, "heap"):
+            m = pq.heap.size()
+            e.check(m == len(model), "heap size wrong after one operation", ctx)
+            for i in range(m):
+                ent = pq.heap[i]
+                e.check(pq.positions.data.get(ent.second) == i, "representation invariant broken: positions is not the inverse of heap", ctx)
+                sc_i = ent.first[0].data
+                sc_i = sc_i[0] if arity == 1 else tuple(sc_i)
+                e.check(_eq(sc_i, model[ent.second]), "representation invariant broken: heap holds a stale score", ctx)
+                if i > 0:
+                    par = pq.heap[(i - 1) // 2].first[0].data
+                    par = par[0] if arity == 1 else tuple(par)
+                    e.check(_lex_ge(par, sc_i), "representation invariant broken: heap order violated after one operation", ctx)
+            e.check(len(pq.positions.data) == m, "representation invariant broken: positions has stale entries", ctx)
+        self._drain(e, pq, model, ctx)
+
+
+SUBCHECKS.update({c.name: c for c in [PQHist(), PQStep()]})
+
 if __name__ == "__main__":
     import sys
     from vf import runner
